@@ -1010,7 +1010,7 @@ def fields_of(e):
     return {n["name"] for n in walk(e) if n.get("k") == "Field"}
 
 
-@rule("C11", "C11.d.single-exit", floor=3)
+@rule("C11", "C11.d.single-exit", floor=4)
 def c11d(F, R):
     """a function's exit is the first return found; every later return is rewired to it (paired edges) and set_exit is called once with it"""
     p = [q for q in F.fns if q.endswith("FunctionMarkupPass::mark_reachable")]
@@ -1027,6 +1027,23 @@ def c11d(F, R):
         R.bad("walk", "UNEXTRACTABLE: reachability walk loop not found", f["sp"])
         return
     ifs = [n for n in walk(loops[0]["body"]) if n.get("k") == "If" and peel_cond(n["cond"]).get("k") == "LetExpr" and ekey(peel_cond(n["cond"])["init"]) == RET]
+    # the nodes that compete for being the exit are exactly the return instructions: the `if` around the first-return
+    # bookkeeping tests `<node>.is_return()` and nothing else
+    if ifs:
+        from .p_parse import parent_map as _pm
+        pm_ = _pm(loops[0]["body"])
+        outer = pm_.get(id(ifs[0]))
+        while outer is not None and outer.get("k") != "If":
+            outer = pm_.get(id(outer))
+        if outer is None:
+            R.bad("exit-is-a-return", "UNEXTRACTABLE: the first-return bookkeeping is not under an `if`", loc(ifs[0]))
+        else:
+            c_ = peel_cond(outer["cond"])
+            c_ = peel(c_)
+            if c_.get("k") == "MethodCall" and c_["name"] == "is_return" and ekey(c_["recv"]).lstrip("&*") == lv and not c_["args"]:
+                R.ok("exit-is-a-return", detail=f"only `{lv}.is_return()` nodes become the exit or are rewired to it", where=loc(outer))
+            else:
+                R.bad("exit-is-a-return", f"a node becomes the function's exit (or is rewired to it) under `{ekey(c_)[:70]}`, not under `{lv}.is_return()` alone: an instruction that is not a return - an exit ecall met before the first `ret` - ends up as the exit, and every real return is turned into a jump to it", loc(outer))
     if len(assigns) == 1 and len(ifs) == 1 and any(x is assigns[0] for x in walk(ifs[0].get("else") or {})):
         R.ok("first-return-kept", detail=f"`{RET}` is assigned only when it is still None")
     else:
